@@ -126,7 +126,7 @@ package flows
 //@ func (l *GroupList) FindByUUID
 //@   reveal memberOf
 //@   pure
-//@   reads GroupList::groups, elems[*Group], Group::Group
+//@   reads GroupList::groups, elems[*Group], Group::*
 //@   requires groupsOK(l)
 //@   ensures [found_iff] (result != nil) <==> memberOf(l, uuid)
 //@   ensures [is_it] result != nil ==> result.UUID() == uuid
@@ -173,7 +173,7 @@ package flows
 //@   havocs EvaluateQuery
 //@   requires g != nil && contact != nil && g.UsesQuery()
 //@   ensures [only_active] contact.status != ContactStatusActive ==> !result
-//@   reads Contact::uuid, Contact::id, Contact::name, Contact::language, Contact::status, Contact::timezone, Contact::createdOn, Contact::lastSeenOn, Contact::urns, Contact::fields, Contact::ticket, elems[*ContactURN], ContactURN::urn, ContactURN::channel, map[string]*FieldValue, FieldValue::*, Value::*, Ticket::*
+//@   reads Group::Group, Group::parsedQuery, Contact::uuid, Contact::id, Contact::name, Contact::language, Contact::status, Contact::timezone, Contact::createdOn, Contact::lastSeenOn, Contact::urns, Contact::fields, Contact::ticket, elems[*ContactURN], ContactURN::urn, ContactURN::channel, map[string]*FieldValue, FieldValue::*, Value::*, Ticket::*
 
 // the contact's assets: the engine's session assets with group assets whose UUIDs are unique (NewGroupAssets indexes them by UUID)
 //@ pred contactAssetsOK(c *Contact) bool := c != nil && !isnil(c.assets) && c.assets.(*engine.sessionAssets) != nil && c.assets.(*engine.sessionAssets).groups != nil && (forall k int :: 0 <= k && k < len(c.assets.(*engine.sessionAssets).groups.all) ==> c.assets.(*engine.sessionAssets).groups.all[k] != nil) && noDupUUIDs(c.assets.(*engine.sessionAssets).groups.all)
